@@ -722,7 +722,8 @@ def burst_check(seed, tier, wd):
     T = templates()
     recs = []
     for runno, nparts in enumerate((3, 7, 12, 24), 1):
-        pl = Plugin(options={OPT[k]: v for k, v in dict(DEFAULTS, mpp=5).items()}, height=1000)
+        # (every second run with trace logging: the logging layer then works on every span of every handler)
+        pl = Plugin(options={OPT[k]: v for k, v in dict(DEFAULTS, mpp=5).items()}, height=1000, log="trace" if runno % 2 == 0 else None)
         pl.node.node_id = T["local"]
         try:
             pl.node.pay_mode = "complete:" + T["preimages"][0]
